@@ -279,7 +279,8 @@ def run_x(out: Outcome, programs, prop, max_cex=8, nshards=None, timeout_s=600, 
         if prop in SAFE_ONLY:
             ok = not fails
         obname = f"{prop}/{p.pid}/{name}/{h.kind}"
-        if vac and h.expect != "panic":
+        if vac and h.expect != "panic" and ok:
+            # (a failed obligation cuts the path before the cover, so vacuity is only meaningful when nothing failed)
             raise Infra(f"vacuous harness {name}: its cover!(true) is not satisfiable (contradictory precondition?)")
         if any(c.get("undetermined") for c in fails):
             raise Infra(f"harness {name} undetermined (solver limit), not a violation")
